@@ -6,7 +6,7 @@
    is decided by the correspondence and the falsifier over the indicator engine. *)
 From Coq Require Import ZArith List Bool Lia.
 From Hexital Require Import Base.Prelude Base.Num Model.Manager Model.Candle Model.Readings Model.Engine
-  Proofs.CollapseProofs Proofs.FillProofs Proofs.CausalProofs Proofs.TrimProofs.
+  Proofs.CollapseProofs Proofs.FillProofs Proofs.CausalProofs Proofs.TrimProofs Proofs.TrimCompose.
 Import ListNotations.
 Local Open Scope Z_scope.
 
@@ -73,3 +73,15 @@ Theorem C15_reading_unchanged_by_trim_leaf :
   pure_calc O I (pre ++ suf) i = pure_calc O I suf (i - zlen pre).
 Proof. exact trim_invariant. Qed.
 Print Assumptions C15_reading_unchanged_by_trim_leaf.
+
+(* clause 1 under every append schedule: D is the manager's state (timeframe and lifespan set)
+   after the raw stream xs; appending ys re-collapses D ++ ys and trims again; the result is
+   collapse + trim of the whole raw stream - the buckets already trimmed away are older than
+   every later bound, and the retained suffix continues exactly like the whole series *)
+Theorem C15_window_schedule_independent :
+  forall (O : NumOps) (tf ls : Z) (xs ys D : list (cd (payload O))),
+  0 < tf -> 0 <= ls -> sorted (payload O) (xs ++ ys) ->
+  tasks O (tf_life_cfg tf ls) xs = Ok D ->
+  mgr_append O (tf_life_cfg tf ls) D ys = tasks O (tf_life_cfg tf ls) (xs ++ ys).
+Proof. intros O tf ls xs ys D Htf Hls Hs HD. eapply manager_lifespan_incremental; eassumption. Qed.
+Print Assumptions C15_window_schedule_independent.
